@@ -24,7 +24,7 @@ EXHAUSTIVE = {"quick": False, "thorough": True}
 
 K = 8
 OPS = ["connect", "connect-auth", "shell", "exec_out", "streaming_shell", "root", "reboot", "list", "stat", "pull", "pull-cb", "push", "push-dir"]
-STALLS = ["silence", "eof", "trickle", "other-traffic", "unexpected", "partial", "data-flood", "mute-stream"]
+STALLS = ["silence", "eof", "trickle", "other-traffic", "unexpected", "partial", "data-flood", "mute-stream", "one-other-stream"]
 TS = [None, 0, 0.5, -1, 3]
 RS = [0, 0.3, 2, -1, 10]
 XS = [None, 0, 1, 5]
@@ -44,6 +44,11 @@ def gen_cases(tier, seed):
             for tup in tuples:
                 yield {"op": op, "impl": impl, "T": tup[0], "R": tup[1], "X": tup[2], "A": tup[3], "seed": "%d:%d" % (seed, i)}
                 i += 1
+    # the wait for the user's confirmation may be unlimited (auth_timeout_s=None), but a device that keeps sending OTHER packets meanwhile is not waiting for the user
+    for impl in ("sync", "async"):
+        for tup in ((0.5, 2, 5, None), (None, 0.3, None, None), (0, 2, 1, None)):
+            yield {"op": "connect-auth", "impl": impl, "T": tup[0], "R": tup[1], "X": tup[2], "A": tup[3], "seed": "%d:an%d" % (seed, i)}
+            i += 1
     # a second scenario variant with many more await points (fragmented reads, multi-WRTE transfers, more chunks)
     for op in OPS:
         for impl in ("sync", "async"):
@@ -174,6 +179,8 @@ class Staller(object):
         self.next_byte_at = None
         self.pace = max(0.9 * (teff if teff and teff > 0 else 0), 0.05)
         self.flood_pace = max(0.05, (reff if reff and reff > 0 else 0) / 40.0)   # a finite-rate device: ~40 packets per read timeout
+        if kind == "one-other-stream":
+            self.flood_pace = max(0.1, (reff if reff and reff > 0 else 0)) / 300.0     # a chatty stream nobody reads (logcat): hundreds of its packets get parked within one read timeout
         sess.core.bulk_read = self.read
         if kind == "eof":
             self.core.stall = "eof"
@@ -250,7 +257,7 @@ class Staller(object):
             return self.orig(numbytes, timeout)
         if stalled:
             self.reached = True
-            if self.kind in ("other-traffic", "unexpected", "data-flood"):
+            if self.kind in ("other-traffic", "unexpected", "data-flood", "one-other-stream"):
                 self.floods += 1
                 core.clock.advance(self.flood_pace)
                 st = self.target_stream()
@@ -259,6 +266,8 @@ class Staller(object):
                 elif self.kind == "data-flood" and st is not None and sim.connected:
                     # endless output on the operation's own stream: only a whole-command limit (timeout_s) can end it
                     raw = wire.pack("WRTE", st.remote, st.local, b"more output %d\n" % self.floods)
+                elif self.kind == "one-other-stream" and sim.connected:
+                    raw = wire.pack("WRTE", 0x70000000, 0x60000000, b"log line %d\n" % self.floods)
                 elif sim.connected:
                     raw = wire.pack("WRTE", 0x70000000 + self.floods, 0x60000000 + (self.floods % 3), b"flood")
                 else:
@@ -310,6 +319,10 @@ def run_case(case):
         dispose(sess)
     for j in range(npk):
         for kind in STALLS:
+            if case["A"] is None and kind not in ("other-traffic", "unexpected"):
+                continue          # (with no limit on the confirmation wait a silent device is waited for indefinitely, by contract)
+            if kind == "one-other-stream" and op.startswith("connect"):
+                continue
             if kind == "mute-stream" and (len(set(o_ for (o_, _) in ref_streams)) < 2 or op.startswith("connect") or j >= len(ref_streams)):
                 continue          # with a single stream this is the same as silence
             if kind == "data-flood":
@@ -340,7 +353,7 @@ def run_case(case):
                 stats["stalls_reached"] += 1
                 stats["floods"] += st.floods
                 stats["max_calls_in_op"] = max(stats["max_calls_in_op"], sess.core.calls_in_op)
-                a = case["A"] if op == "connect-auth" else 0
+                a = (case["A"] or 0) if op == "connect-auth" else 0
                 bound = K * (max(r_eff, 0) + max(t_eff, 0) + max(a, 0)) + (max(x_eff, 0) if x_eff is not None else 0) + 0.5
                 ratio = dt / bound
                 stats["max_ratio"] = max(stats["max_ratio"], round(ratio, 4))
@@ -363,11 +376,11 @@ def run_case(case):
                 lim = r_eff
                 for (k_, t) in sess.core.read_timeouts[nreads:]:
                     stats["timeout_args_checked"] += 1
+                    if op == "connect-auth" and t == case["A"]:
+                        continue
                     if t is None:
                         viol.append({"mechanism": "timeout-arg", "detail": "%s: a transport call got timeout None" % where})
                         break
-                    if op == "connect-auth" and t == case["A"]:
-                        continue
                     if t > lim and not (lim < 0 and t <= 0):
                         viol.append({"mechanism": "timeout-arg", "detail": "%s: a transport call got timeout %r > effective read limit %r" % (where, t, lim)})
                         break
